@@ -25,7 +25,7 @@ INFO = {
                    "cache[l] = H(cache[l+1], cache[l+1]); root() is node 0 / get_node(0, 0). R06-4 the persistent adapter delegates: set/delete/update_next/set_range/get/root/"
                    "leaves_set/depth/capacity/proof each call pmtree's operation of the same name with the caller's arguments exactly once and before any branch. "
                    "R06-5 get_subtree_root(n, index) in the three back ends: two bounds rejections, level 0 = root(), level depth = get(index), level n = the node "
-                   "(n, index >> (depth - n)) - in the full tree as a climb of depth - n parents ((i+1)>>1)-1 from node 2^depth + index - 1 (or the equivalent closed form). R06-6 the plain observers: capacity = 1 << depth, depth, metadata/set_metadata (in-memory trees), compute_root = Ok(root()). R06-7 who-may-write: next_index, nodes, the default cache and depth of the in-memory trees are stored only by the operations whose effect is specified.",
+                   "(n, index >> (depth - n)) - in the full tree as a climb of depth - n parents ((i+1)>>1)-1 from node 2^depth + index - 1 (or the equivalent closed form). R06-6 the plain observers: capacity = 1 << depth, depth, metadata/set_metadata (in-memory trees), compute_root = Ok(root()). R06-8 every success path of an in-memory set / set_range stores, recomputes, raises the mark and flags (no value-dependent shortcut). R06-7 who-may-write: next_index, nodes, the default cache and depth of the in-memory trees are stored only by the operations whose effect is specified.",
     "not_decided": "equality of roots/leaves with the ideal tree as values over histories (numeric; Poseidon opaque), pmtree's internals",
     "assumptions": ["pmtree's mutators are atomic on their own errors"],
 }
@@ -489,6 +489,65 @@ PM_DELEGATES = {
 }
 
 
+def check_complete_writes(ctx, fb):
+    """R06-8: a write that reports success has happened, whatever the value: every path of an in-memory set / set_range that can return Ok
+    stores the leaf (or leaves), recomputes the parents, raises the high-water mark and marks the position(s); a shortcut for
+    'unchanged' values skips the mark, so writing the default value to a fresh position would not count as a write"""
+    for name in ("optimal", "full"):
+        for m in ("set", "set_range"):
+            it = c15.get(fb, name, m)
+            ctx.touch(it)
+            eng = Engine(fb, inline=lambda i: False)
+            paths = eng.run(it)
+            n_ok = 0
+            why = None
+            for p in paths:
+                if p.kind != "return":
+                    continue
+                rv = eng.value_of(p.store, p.ret)
+                if known_ok(rv) is False:
+                    continue
+                if known_ok(rv) is None:
+                    # the result is delegated (FullMerkleTree::set hands the write to set_range): the delegate is checked on its own
+                    if not p.calls(r"ZerokitMerkleTree>::set_range$"):
+                        why = "a path returns %s" % sh(rv, 80)
+                    n_ok += 1
+                    continue
+                n_ok += 1
+                if name == "full" and m == "set":
+                    # Ok after set_range succeeded: the mark is raised here
+                    hw = [e for e in p.trace if e[0] == "write" and e[2] == (("f", "next_index"),)]
+                    if not (p.calls(r"ZerokitMerkleTree>::set_range$") and hw):
+                        why = "a success path does not go through set_range and the high-water update"
+                    continue
+                empty_range = m == "set_range" and any(a[0] == "ok" and v is False and "next" in repr(a)[:160] for a, v in p.conds()) and False
+                stores = [e for e in p.trace if (e[0] == "write" and e[2] and e[2][0] == ("f", "nodes")) or (e[0] == "call" and e[1].endswith("HashMap::<K, V, S, A>::insert"))]
+                loops = [e for e in p.trace if e[0] == "loop"]
+                rec = p.calls(r"update_hashes$|update_nodes$")
+                hw = [e for e in p.trace if e[0] == "write" and e[2] == (("f", "next_index"),)]
+                fl = [e for e in p.trace if e[0] == "write" and e[2] and e[2][0] == ("f", treefx.FLAGS)]
+                if m == "set":
+                    if not (stores and rec and hw and fl):
+                        why = "a success path of set skips %s" % ", ".join(k for k, v in (("the leaf store", stores), ("the parent recomputation", rec), ("the high-water update", hw), ("the flag", fl)) if not v)
+                else:
+                    # range write: leaves and flags are written in loops (possibly zero iterations for an empty range); the mark and the
+                    # recomputation are unconditional
+                    def empty_batch(pth):
+                        for a, v in pth.conds():
+                            t = a[1] if len(a) > 1 else None
+                            if a[0] == "b" and isinstance(t, tuple) and t and t[0] == "is_empty" and v is True:
+                                return True
+                            if a[0] == "b" and isinstance(t, tuple) and t and t[0] == "bin" and t[1] in ("Ne", "Eq") and (cint(t[2]) == 0 or cint(t[3]) == 0) and v is (t[1] == "Eq"):
+                                return True
+                            if a[0] == "v" and v == ("eq", 0):
+                                return True
+                        return False
+                    if not (hw and (rec or loops)) and not empty_batch(p):
+                        why = "a success path of set_range skips %s" % ", ".join(k for k, v in (("the high-water update", hw), ("the parent recomputation", rec or loops)) if not v)
+            ctx.check(why is None and n_ok >= 1, "R06-8", "%s::%s completes on every success path" % (name, m), "%d success path(s), each stores, recomputes, raises the mark and flags" % n_ok,
+                      "%s::%s: %s: a write that returns Ok has not fully happened (the high-water mark and later appends then disagree with the other back ends)" % (name, m, why), loc(it))
+
+
 def check_delegation(ctx, fb):
     """R06-4: the persistent adapter is a pass-through: each operation calls pmtree's operation of the same name with the caller's
     arguments, exactly once, before any branch - so what pmtree reports (values, high-water mark, root) is what the adapter reports"""
@@ -721,6 +780,7 @@ def run(ctx):
     check_atomic(ctx, fb, "default")
     check_formulas(ctx, fb)
     check_recompute(ctx, fb)
+    check_complete_writes(ctx, fb)
     check_delegation(ctx, fb)
     check_subtree_root(ctx, fb)
     check_plain_observers(ctx, fb)
